@@ -610,6 +610,12 @@ def feval(e, env):
             return (args[0] > 0) - (args[0] < 0)
         if d in ("dot", "vdot"):
             return args[0] * args[1]
+        if d == "expm1":
+            return math.expm1(args[0])
+        if d == "log1p":
+            return math.log1p(args[0])
+        if d == "power":
+            return args[0] ** args[1]
         if d == "exp":
             return math.exp(args[0])
         if d == "log":
